@@ -119,12 +119,12 @@ def run_precomp(req):
                     if model == "sup":
                         o = SupervisedOPF(**kw)
                         o.fit(X, Y, I)
-                        p = o.predict(Xq, Iq)
+                        p = o.predict(Xq, Iq) if nte else []
                     elif model == "semi":
                         o = SemiSupervisedOPF(**kw)
                         Xu = np.array([[float(ntr + i)] for i in range(cfg["nu"])])
                         o.fit(X, Y, Xu, I)
-                        p = o.predict(Xq, Iq)
+                        p = o.predict(Xq, Iq) if nte else []
                     else:
                         o = UnsupervisedOPF(min_k=1, max_k=cfg.get("k", 1), **kw)
                         o.fit(X, Y, I)
